@@ -335,8 +335,32 @@ impl Scenario for Misuse {
                 let foreign = other.var(fresh());
                 let fw = foreign.watch();
                 let v = st.var(fresh());
-                let b = v.bind(move |_| fw.clone());
+                // the foreign node comes back on the first run of the closure, or only on a later run
+                // (after the bind has already been linked to a node of its own state)
+                let later = choose(2) == 1;
+                // (every write re-runs the closure, whatever the values)
+                v.watch().set_cutoff(incremental::Cutoff::Never);
+                let own = st.var(fresh());
+                let ownw = own.watch();
+                let runs = Rc::new(Cell::new(0u32));
+                let b = v.bind(move |_| {
+                    runs.set(runs.get() + 1);
+                    if later && runs.get() == 1 {
+                        ownw.clone()
+                    } else {
+                        fw.clone()
+                    }
+                });
                 let o = b.observe();
+                if later {
+                    cover("foreign-state-node-on-a-later-run");
+                    op_log("(first run returns a node of the bind's own state)".into());
+                    if let Err(m) = catch(|| st.stabilise()) {
+                        violation("C19/legal-bind-rejected", format!("a bind returning a node of its own state panicked: {m}"));
+                    }
+                    v.set(fresh());
+                }
+                keep.things.push(Box::new(own));
                 let r = catch(|| st.stabilise());
                 let got = o.try_get_value();
                 if got.is_ok() {
@@ -422,7 +446,13 @@ impl Scenario for Misuse {
                     let n2 = nested.clone();
                     let m = v.map(move |x| {
                         let s = ws.upgrade().unwrap();
-                        *n2.borrow_mut() = Some(catch(|| s.stabilise()));
+                        // asked twice: a refusal must not make the next attempt succeed
+                        let r1 = catch(|| s.stabilise());
+                        let r2 = catch(|| s.stabilise());
+                        *n2.borrow_mut() = Some(match (r1, r2) {
+                            (Err(e), Err(_)) => Err(e),
+                            _ => Ok(()),
+                        });
                         app(1, &[x.clone()])
                     });
                     o = m.observe();
@@ -435,7 +465,12 @@ impl Scenario for Misuse {
                         // make work pending, then try to stabilise from inside the handler
                         w2c.set(fresh());
                         let before = sc2.get();
-                        *n2.borrow_mut() = Some(catch(|| s.stabilise()));
+                        let r1 = catch(|| s.stabilise());
+                        let r2 = catch(|| s.stabilise());
+                        *n2.borrow_mut() = Some(match (r1, r2) {
+                            (Err(e), Err(_)) => Err(e),
+                            _ => Ok(()),
+                        });
                         rin.set(sc2.get() - before);
                     });
                 }
@@ -472,7 +507,11 @@ impl Scenario for Misuse {
             _ => {}
         }
         let k = ManuallyDrop::into_inner(keep);
-        if let Err(msg) = catch(move || drop(k)) {
+        // (the second state handle goes last: the state itself is destroyed inside the guarded region)
+        if let Err(msg) = catch(move || {
+            drop(k);
+            drop(st);
+        }) {
             violation("C19/panic-while-dropping-after-misuse", msg);
         }
     }
